@@ -3,6 +3,7 @@ package core
 import (
 	"bufio"
 	"bytes"
+	"encoding/binary"
 	"encoding/json"
 	"fmt"
 	"io"
@@ -54,7 +55,11 @@ type PropertySpec struct {
 	RaceFraction  float64 // fraction of workers that run the -race binary
 	RunCapS       float64 // wall-clock cap per run
 	HangViolation bool    // a run exceeding RunCapS is a violation of this property (else infrastructure)
-	Subs          []SubSpec
+	// CrashViolation: a worker process killed by the Go runtime (fatal error, stack exhaustion, unrecovered panic
+	// in a goroutine of the code under test) while executing a run is a violation of this property ("never crashes
+	// the process"); an engine panic that SafeRun recovered stays an infrastructure error.
+	CrashViolation bool
+	Subs           []SubSpec
 	// KnownKeys lists the generator features that may be disabled by open known findings.
 	KnownKeys []string
 }
@@ -169,6 +174,10 @@ type workerOutcome struct {
 	stderr    string
 	killed    bool
 	memKilled bool
+	curFile   string
+	curRun    int64
+	curSeed   uint64
+	haveCur   bool
 }
 
 func selfPath() string {
@@ -218,11 +227,13 @@ func runWorkers(spec *PropertySpec, base WorkerArgs, workers int, raceWorkers in
 			a.Race = true
 			a.AnnounceRuns = true
 		}
+		curFile := filepath.Join(os.TempDir(), fmt.Sprintf("luasim-cur-%d-%d", os.Getpid(), i))
+		a.CurFile = curFile
 		cmd := workerCmd(bin, &a)
 		stdout, _ := cmd.StdoutPipe()
 		var errb bytes.Buffer
 		cmd.Stderr = &limitedWriter{w: &errb, n: 1 << 20}
-		o := &workerOutcome{idx: i, race: a.Race}
+		o := &workerOutcome{idx: i, race: a.Race, curFile: curFile}
 		outs[i] = o
 		if err := cmd.Start(); err != nil {
 			o.exit = 2
@@ -288,6 +299,12 @@ func runWorkers(spec *PropertySpec, base WorkerArgs, workers int, raceWorkers in
 			}
 			err := cmd.Wait()
 			close(done)
+			if b, rerr := os.ReadFile(o.curFile); rerr == nil && len(b) >= 16 {
+				o.curRun = int64(binary.LittleEndian.Uint64(b[:8]))
+				o.curSeed = binary.LittleEndian.Uint64(b[8:16])
+				o.haveCur = true
+			}
+			os.Remove(o.curFile)
 			if err != nil {
 				if ee, ok := err.(*exec.ExitError); ok {
 					o.exit = ee.ExitCode()
@@ -449,6 +466,12 @@ func Supervise(spec *PropertySpec, tier string, verifSeed uint64, budgetOverride
 					viol = &WorkerMsg{Type: "violation", Run: ls.Run, Seed: ls.Seed, Class: "datarace", Detail: firstLines(o.stderr, 60)}
 					violSub, violRace = b.sub, true
 				}
+			case o.exit != 0 && !o.killed && o.summary == nil && spec.CrashViolation && o.haveCur && runtimeCrash(o.stderr):
+				// the Go runtime killed the worker while it was executing a run
+				if viol == nil {
+					viol = &WorkerMsg{Type: "violation", Run: o.curRun, Seed: o.curSeed, Class: "process-crash", Detail: "the process was killed by the Go runtime while executing this run:\n" + firstLines(o.stderr, 40)}
+					violSub, violRace = b.sub, o.race
+				}
 			case o.exit != 0 && !o.killed && o.summary == nil:
 				if infra == "" {
 					infra = fmt.Sprintf("worker %d exited with %d: %s", o.idx, o.exit, firstLines(o.stderr, 30))
@@ -572,6 +595,11 @@ func Supervise(spec *PropertySpec, tier string, verifSeed uint64, budgetOverride
 	return exit
 }
 
+// runtimeCrash: the stderr of a dead worker shows a Go runtime crash (not an exit the worker chose).
+func runtimeCrash(stderr string) bool {
+	return strings.Contains(stderr, "fatal error:") || strings.Contains(stderr, "\npanic: ") || strings.HasPrefix(stderr, "panic: ") || strings.Contains(stderr, "unexpected signal") || strings.Contains(stderr, "goroutine stack exceeds")
+}
+
 func sameEvents(a, b []string) bool {
 	if len(a) != len(b) {
 		return false
@@ -643,6 +671,9 @@ func ReplayOnce(spec *PropertySpec, rf *ReplayFile) (int, *WorkerMsg, string) {
 				last = &mm
 			}
 		}
+	}
+	if code != 0 && last == nil && rf.Violation.Class == "process-crash" && runtimeCrash(errb.String()) {
+		return 1, &WorkerMsg{Type: "violation", Class: "process-crash", Detail: firstLines(errb.String(), 40), Events: rf.Events}, ""
 	}
 	if code == 66 && rf.Race {
 		return 1, &WorkerMsg{Type: "violation", Class: "datarace", Detail: firstLines(errb.String(), 60), Events: rf.Events}, ""
